@@ -352,6 +352,14 @@ fn factory() -> PipelineFactory {
 	PipelineFactory::default(std::path::Path::new("/nonexistent-c18"), cb)
 }
 
+/// a random well-formed pipeline text (used as mutation seed by C19)
+pub fn random_vpl_text(rng: &mut Rng) -> String {
+	let depth = rng.below(4) as u32;
+	let tree = gen_pipeline(rng, depth);
+	let st = Style { ws: rng.below(3) as u8, quote_all: false };
+	render_pipeline(&tree, &st, rng)
+}
+
 fn run_case(cx: &CaseCtx, rep: &mut Report) {
 	let mut rng = cx.rng();
 	cx.progress("valid texts");
